@@ -231,26 +231,90 @@ def r19_4(ctx):
                 continue
             if any(a[0] == "call" and "PartialEq" in a[1] and (mentions_field(a[2][0], "url") or mentions_field(a[2][1], "url")) for p in lp.iteration_paths(s) for a, v in p.conds):
                 inner.append(lp)
-        r.ob("hops:previous-hops-scanned", len(inner) == 1, f.site, "every new URL is compared with the hops recorded so far")
-        if inner:
-            rows = {}
+        is_eq = lambda a, fld: a[0] == "call" and "PartialEq" in a[1] and (mentions_field(a[2][0], fld) or mentions_field(a[2][1], fld))
+        sets_loop = lambda p: any(e[0] in ("set", "init") and mentions(e[3], lambda x: x[0] == "agg" and x[2] == "Loop") for e in p.events)
+        rows = {}
+        verdict_bad = []
+        where = f.site
+        if len(inner) == 1:
+            where = f.loc(inner[0].line)
             for p in inner[0].iteration_paths(s):
                 u = m = None
                 for a, v in p.conds:
-                    if a[0] == "call" and "PartialEq" in a[1]:
-                        if mentions_field(a[2][0], "url") or mentions_field(a[2][1], "url"):
-                            u = bool(v)
-                        if mentions_field(a[2][0], "method") or mentions_field(a[2][1], "method"):
-                            m = bool(v)
-                loop = any(e[0] in ("set", "init") and mentions(e[3], lambda x: x[0] == "agg" and x[2] == "Loop") for e in p.events)
-                rows[(u, m)] = loop
-            bad = []
-            for (u, m), loop in rows.items():
-                for uu in ([u] if u is not None else [True, False]):
-                    for mm in ([m] if m is not None else [True, False]):
-                        if loop != (uu and mm):
-                            bad.append("url equal=%s method equal=%s -> %s" % (uu, mm, "Loop" if loop else "no loop"))
-            r.ob("hops:loop-predicate", not bad and len(rows) >= 2, f.loc(inner[0].line), "Loop <=> a previous hop has the same url AND the same method (rows %s)" % rows if not bad else "; ".join(sorted(set(bad))))
+                    if is_eq(a, "url"):
+                        u = bool(v)
+                    if is_eq(a, "method"):
+                        m = bool(v)
+                rows.setdefault((u, m), set()).add(sets_loop(p))
+        elif not inner and outer:
+            # the scan written as hops.iter().any(|previous| ..): the closure is the predicate, its
+            # result decides the Loop verdict
+            for p in outer[0].iteration_paths(s):
+                for a, v in p.conds:
+                    if a[0] == "call" and a[1].endswith("Iterator>::any") and a[2][1][0] == "agg" and "{closure" in (a[2][1][1] or ""):
+                        cl = F.fns.get(a[2][1][1])
+                        if cl is None:
+                            continue
+                        inner.append(cl)
+                        for q in Sym(cl, copies=True).paths():
+                            if q.end[0] != "ret":
+                                continue
+                            u = m = None
+                            for b, w in q.conds:
+                                if is_eq(b, "url"):
+                                    u = bool(w)
+                                if is_eq(b, "method"):
+                                    m = bool(w)
+                            ret = q.end[1]
+                            if ret[0] == "const":
+                                outs = [(u, m, bool(ret[1]))]
+                            elif is_eq(ret, "method") and m is None:
+                                outs = [(u, True, True), (u, False, False)]
+                            elif is_eq(ret, "url") and u is None:
+                                outs = [(True, m, True), (False, m, False)]
+                            else:
+                                outs = [(u, m, None)]
+                            for uu, mm, res in outs:
+                                rows.setdefault((uu, mm), set()).add(res)
+                        # the verdict follows the result of any()
+                        if sets_loop(p) != (v == 1):
+                            verdict_bad.append("any(..) is %s but the Loop verdict is %s" % (bool(v), "set" if sets_loop(p) else "not set"))
+            inner = inner[:1]
+        r.ob("hops:previous-hops-scanned", len(inner) == 1, f.site, "every new URL is compared with the hops recorded so far")
+        if inner:
+            bad = list(verdict_bad)
+            for (u, m), loops in rows.items():
+                for loop in loops:
+                    if loop is None:
+                        continue
+                    for uu in ([u] if u is not None else [True, False]):
+                        for mm in ([m] if m is not None else [True, False]):
+                            if loop != (uu and mm):
+                                bad.append("url equal=%s method equal=%s -> %s" % (uu, mm, "Loop" if loop else "no loop"))
+            r.ob("hops:loop-predicate", not bad and len(rows) >= 2, where, "Loop <=> a previous hop has the same url AND the same method (rows %s)" % sorted(rows, key=str) if not bad else "; ".join(sorted(set(bad))))
+        # a 301/302 downgrades the method of the *next* request to GET; the hop that is compared with
+        # the previous ones and recorded is the next request (url, downgraded method): no hop record may
+        # be built from the method variable before the downgrade on a path where it happens
+        if outer:
+            HOP = "api::redirection_loop::RedirectionHop"
+            n_down = 0
+            early = set()
+            for p in outer[0].iteration_paths(s):
+                down = [(i, e) for i, e in enumerate(p.events) if e[0] in ("set", "init") and mentions(e[3], lambda x: x == ("const", "GET"))]
+                if not down:
+                    continue
+                n_down += 1
+                i_d, ev = down[0]
+                mv = ev[1]  # the method variable, by role: the one assigned "GET"
+                for j, e in enumerate(p.events[:i_d]):
+                    exprs = [e[3]] if e[0] in ("set", "init") else list(e[2]) if e[0] == "call" else []
+                    for x0 in exprs:
+                        for x in walk(x0):
+                            if x[0] == "agg" and x[1] == HOP and mentions(dict(x[3]).get("method", ()), lambda y: y in (("local", mv), ("havoc", mv)) or (y[0] in ("local", "havoc") and y[1] == mv)):
+                                early.add(e[-1] if isinstance(e[-1], int) else 0)
+            r.ob("hops:recorded-after-method-downgrade", n_down >= 1 and not early, f.site,
+                 "on the %d iteration paths with a 301/302 every hop record is built after the method became GET" % n_down if not early else
+                 "a hop record is built from the method variable before the 301/302 downgrade (lines %s): the loop test and the reported chain use the previous request's method" % sorted(early))
         # TooManyHops when i >= max_hops
         okm = False
         if outer:
@@ -262,7 +326,7 @@ def r19_4(ctx):
                         if hit and tm:
                             okm = True
         r.ob("hops:too-many-hops-at-limit", okm, f.site, "TooManyHops is reported when the hop index reaches max_hops")
-    ctx.run_rule("R19.4", "hop loop bound and loop predicate", body, floor=4)
+    ctx.run_rule("R19.4", "hop loop bound and loop predicate", body, floor=5)
 
 
 def r19_5(ctx):
